@@ -96,7 +96,7 @@ def run_case(spec):
     from nautilus.bounds.periodic import PhaseShift
     rng = np.random.default_rng(np.random.SeedSequence([spec['seed'], 16, spec['i']]))
     obs = dict(centres=0, points=0, wrap_neighbour_points=0, outputs_equal_one=0,
-               clouds=0, wraps_seen_both_sides=0, inverse_points=0, unsorted_index_sets=0)
+               clouds=0, wraps_seen_both_sides=0, inverse_points=0, unsorted_index_sets=0, odd_nonperiodic_values=0)
     viol = []
 
     def bad(key, what, **kw):
@@ -143,6 +143,12 @@ def run_case(spec):
         cols = [_directed(float(c), rng) for c in ps.centers]
         n = max(len(c) for c in cols)
         x = rng.random((n, n_dim))
+        # non-periodic coordinates are none of the shift's business, whatever they are (query points of contains() need
+        # not lie in the cube): also exactly 0, exactly 1 and values outside [0,1)
+        odd = np.array([0.0, 1.0, np.nextafter(1.0, 0.0), np.nextafter(1.0, 2.0), -0.25, 1.75, 5e-324, -0.0])
+        for dim in np.setdiff1d(np.arange(n_dim), periodic):
+            x[:len(odd), dim] = odd[rng.permutation(len(odd))][:n]
+            obs['odd_nonperiodic_values'] += min(len(odd), n)
         for k, dim in enumerate(periodic):
             x[:len(cols[k]), dim] = cols[k]
         x0 = x.copy()
